@@ -9,7 +9,7 @@ RULE = ('random pytrees (all node kinds, key styles, option grid) from VERIF_SEE
         'non-trivial = the tree has at least one internal node')
 
 
-def generate(gen, tier):
+def _generate_model_cases(gen, tier):
     n = 400 if tier == 'quick' else 12000
     cases = []
     for i in range(n):
@@ -24,15 +24,38 @@ def generate(gen, tier):
     return cases
 
 
+def generate(gen, tier):
+    cases = _generate_model_cases(gen, tier)
+    # order-free stream: key sets outside the model's key universe (props/exotic.py); oracle only, no model lines
+    n = 120 if tier == 'quick' else 3000
+    for _ in range(n):
+        cases.append({'lines': [], 'o': {'exotic': gen.rng.randrange(10**9)}})
+    return cases
+
+
 def nontrivial(case):
+    if 'exotic' in case['o']:
+        return True
     return has_internal_node(parse(case['o']['tree']))
 
 
 def distribution(cases):
+    n_exotic = sum(1 for c in cases if 'exotic' in c['o'])
+    cases = [c for c in cases if 'exotic' not in c['o']]
+    d0 = _distribution(cases)
+    d0['exotic_key_cases'] = n_exotic
+    return d0
+
+
+def _distribution(cases):
     return tree_distribution(cases)
 
 
 def oracle(impl, o):
+    if 'exotic' in o:
+        import optree as _optree
+        from props import exotic
+        return exotic.check_C01(_optree, o['exotic'])
     import optree
     from universe import Lf
     u = impl.u
